@@ -149,6 +149,45 @@ C13_QUICK = [
 ]
 
 
+def SM(text, mappings, sources=('o.js',), contents=(), names=(), root=None, max=6, consistent=True):
+    mp = {'mappings': ({'template': mappings, 'max': max, 'consistent': consistent} if '?' in mappings else mappings), 'sources': list(sources), 'sourcesContent': list(contents), 'names': list(names)}
+    if root is not None: mp['sourceRoot'] = root
+    return {'kind': 'sms', 'text': text, 'name': 'x.js', 'map': mp}
+
+
+SMS_QUICK = [
+    ('sms(abcd/ef,2 lines,names,root r)', SM('abcd\nef', 'AAAA,?AA??;?AAA', ('o.js', 'p.js'), ('xyz\nuv',), ('nm', 'n2'), 'r')),
+    ('sms(ab//cd/,empty line,root empty)', SM('ab\n\ncd\n', 'A,?AAA;;?AAA?', ('o.js',), (), ('nm',), '')),
+    ('sms(abc,unmapped middle)', SM('abc', 'AAAA,?,?AAA', ('o.js',), ('abc',))),
+    ('sms(ab/cd,segment at end of line)', SM('ab\ncd', 'AAAA,?AAA;AA?A', ('o.js',), (), (), 'r/')),
+    ('sms(a/b/c,partial map)', SM('a\nb\nc', 'AAAA;?AAA', ('o.js',))),
+    ('sms(ab/cd,first segment unmapped)', SM('ab\ncd', 'A,?AAA;AACA', ('o.js',))),
+    ('concat[sms(ab/cd),rawstr1]', CC(SM('ab\ncd', '?,?AAA;AACA', ('o.js',), (), (), 'r/'), RS('!'))),
+    ('concat[sms(ab/cd first unmapped),rawstr1]', CC(SM('ab\ncd', 'A,CAAA;?ACA', ('o.js',)), RS('!'))),
+    ('concat[rawstr1,sms(ab/cd named)]', CC(RS('!'), SM('ab\ncd', 'AAAAA,?AAAC;AACA', ('o.js',), (), ('n1', 'n2')))),
+    ('concat[sms 2 sources,sms shared source]', CC(SM('ab', 'AAAA,?CAA', ('o.js', 'p.js'), ('ab', 'pq')), SM('cd', 'AAAA,?AAA', ('p.js',), ('pq',)))),
+    ('replace(sms(abcd content differs),[sym X])', RP(SM('abcd', 'AAAA,EAAE', ('o.js',), ('wxyz',)), (Q, Q, 'X'))),
+    ('replace(sms(abcd content equal, named),[sym X])', RP(SM('abcd', 'AAAAA,EAAEC', ('o.js',), ('abcd',), ('n1', 'n2')), (Q, Q, 'X'))),
+    ('sms(empty text)', SM('', 'AAAA', ('o.js',))),
+]
+SMS_WILD = [
+    ('wild:sms(ab/cd,any single digits)', SM('ab\ncd', '????;A???', ('o.js',), ('ab',), ('n',), None, 8, False)),
+    ('wild:sms(ab/cd,names and big columns)', SM('ab\ncd', 'AAAA?,?AAAA;?', ('o.js',), ('ab',), ('n',), None, 32, False)),
+    ('wild:sms(ab,lines beyond text)', SM('ab', 'AAAA;;;?A?A;AAAAC', ('o.js',), (), (), None, 8, False)),
+    ('wild:replace(sms(abcd,original line 0..),[sym X])', RP(SM('abcd', 'AA?A,CA??', ('o.js',), ('abcd',), (), None, 6, False), (Q, Q, 'X'))),
+    ('wild:concat[sms(ab/cd wild),rawstr]', CC(SM('ab\ncd', '?AAA,?AA?;A', ('o.js',), (), (), None, 6, False), RS('!'))),
+]
+
+
+def sms_jobs(props, wild=False):
+    def f(tier, seed):
+        jobs = []
+        for t in (SMS_WILD if wild else SMS_QUICK):
+            jobs.append(J('tree:' + t[0], 'jobs.streams:tree_job', dict(tree=t[1], props=props), timeout=600))
+        return jobs
+    return f
+
+
 def replace_jobs(props):
     def f(tier, seed):
         jobs = []
@@ -199,16 +238,18 @@ PROPS = {
                 outside='sequences longer than 3 mappings; simultaneous large values in several fields (argued by field independence, not discharged); deltas >= 2^30',
                 assumptions=['input mapping sequences are strictly sorted by generated position with lines >= 1 and original lines >= 1',
                              'decoder-vs-format jobs assume non-negative running values below 2^31 (as the property states)']),
-    'C01': dict(jobs=[tree_jobs(['C01']), replace_jobs(['C01'])], bounds=RTREE_BOUNDS, outside=TREE_OUTSIDE + '; CachedSource / SourceMapSource trees until their stages are registered', assumptions=TREE_ASSUME),
-    'C02': dict(jobs=[tree_jobs(['C02']), replace_jobs(['C02'])], bounds=RTREE_BOUNDS, outside=TREE_OUTSIDE + '; CachedSource / SourceMapSource trees until their stages are registered', assumptions=TREE_ASSUME),
-    'C03': dict(jobs=[tree_jobs(['C03']), replace_jobs(['C03'])], bounds=RTREE_BOUNDS, outside=TREE_OUTSIDE, assumptions=TREE_ASSUME),
+    'C01': dict(jobs=[tree_jobs(['C01']), replace_jobs(['C01']), sms_jobs(['C01'])], bounds=RTREE_BOUNDS, outside=TREE_OUTSIDE + '; CachedSource / SourceMapSource trees until their stages are registered', assumptions=TREE_ASSUME),
+    'C02': dict(jobs=[tree_jobs(['C02']), replace_jobs(['C02']), sms_jobs(['C02'])], bounds=RTREE_BOUNDS, outside=TREE_OUTSIDE + '; CachedSource / SourceMapSource trees until their stages are registered', assumptions=TREE_ASSUME),
+    'C03': dict(jobs=[tree_jobs(['C03']), replace_jobs(['C03']), sms_jobs(['C03'])], bounds=RTREE_BOUNDS, outside=TREE_OUTSIDE, assumptions=TREE_ASSUME),
     'C04': dict(jobs=[tree_jobs(['C04']), replace_jobs(['C04'])], bounds=RTREE_BOUNDS, outside=TREE_OUTSIDE, assumptions=TREE_ASSUME),
+    'C08': dict(jobs=[sms_jobs(['C08'])], bounds={'quick': 'catalog lib/props.py:SMS_QUICK: SourceMapSource leaves over concrete ASCII texts (1-3 lines, empty lines, trailing line break, empty text) whose maps are mapping-string templates with up to 5 SYMBOLIC single-digit VLQ fields (values < 6; assumed sorted, inside the text, indices in range), 1-2 sources, 0-2 names, with/without sourcesContent, sourceRoot none / empty / r / r/; streamed directly in all four (columns x final) modes, through map(), as first and second child of a ConcatSource and under a ReplaceSource', 'thorough': 'as quick'},
+                outside='multi-digit VLQ fields in the given map (the decoder itself is C12), texts longer than 3 lines, the user-defined-source entry stream_chunks_default (same function underneath), non-ASCII text', assumptions=TREE_ASSUME),
     'C05': dict(jobs=[replace_jobs(['C05'])], bounds=RTREE_BOUNDS, outside='texts longer than the catalog, more than 4 replacements, non-ASCII texts (engine K covers the real String/Rope code on multi-byte shapes when registered); rope()/buffer()/size() views are C07', assumptions=TREE_ASSUME),
-    'C06': dict(jobs=[tree_jobs(['C06']), replace_jobs(['C06'])], bounds=RTREE_BOUNDS, outside=TREE_OUTSIDE + '; SourceMapSource children with several sources/names until stage S2b is registered', assumptions=TREE_ASSUME),
-    'C11': dict(jobs=[tree_jobs(['C11']), replace_jobs(['C11']), codec_c11], bounds=RTREE_BOUNDS, outside=TREE_OUTSIDE, assumptions=TREE_ASSUME),
+    'C06': dict(jobs=[tree_jobs(['C06']), replace_jobs(['C06']), sms_jobs(['C06'])], bounds=RTREE_BOUNDS, outside=TREE_OUTSIDE + '; SourceMapSource children with several sources/names until stage S2b is registered', assumptions=TREE_ASSUME),
+    'C11': dict(jobs=[tree_jobs(['C11']), replace_jobs(['C11']), sms_jobs(['C11']), codec_c11], bounds=RTREE_BOUNDS, outside=TREE_OUTSIDE, assumptions=TREE_ASSUME),
     'C13': dict(jobs=[c13_jobs], bounds={'quick': 'catalog lib/props.py:C13_QUICK: nested boxed ConcatSource groupings (depth <= 3) vs the flat concatenation; single-child / empty-children ConcatSource, boxing and a ReplaceSource without replacements vs the wrapped source; <= 4 symbolic bytes; text, per-position attribution through map() (both column settings) and through the chunk stream, end info', 'thorough': 'as quick'},
                 outside=TREE_OUTSIDE + '; typed nesting flattened by ConcatSource::new/add and CachedSource wrappers until their stages are registered', assumptions=TREE_ASSUME),
-    'C17': dict(jobs=[codec_c17],
+    'C17': dict(jobs=[codec_c17, sms_jobs(['C17'], True), tree_jobs(['C17']), replace_jobs(['C17'])],
                 bounds={'quick': 'decoder: inductive step over ONE byte (all 256 values) from every decoder state satisfying the stated invariant - covers strings of every length < 2^31; '
                                  'plus all byte strings of length <= 3 and continuation runs of 12/13/14/20 digits in each of the 5 field slots, debug and release MIR',
                         'thorough': 'as quick plus all byte strings of length <= 5, continuation runs 1..40'},
